@@ -477,7 +477,8 @@ func (c *converter) AppCall(calls []transpiler.AppCall, valueUsed bool) ([]strin
 		if len(argsCopy) > 0 {
 			space = " "
 		}
-		callStrings = append(callStrings, fmt.Sprintf("%s%s%s", call.Name(), space, strings.Join(argsCopy, " ")))
+		// The program name is quoted as well because a path might contain blanks (@"./my dir/prog"()).
+		callStrings = append(callStrings, fmt.Sprintf("\"%s\"%s%s", call.Name(), space, strings.Join(argsCopy, " ")))
 	}
 	callString := strings.Join(callStrings, " | ")
 
